@@ -416,6 +416,23 @@ def run_prio(ctx: Ctx) -> RuleResult:
     res.ob('%s %s' % (tn.loc(), tn.qual), 'a token node carries its terminal\'s priority unless overridden', ok)
     if not ok:
         res.finding(tn, tn.node, 'TokenNode no longer takes the terminal priority by default', construct='prio:token-default')
+    # ... and a terminal without a declared priority has the neutral element of that sum (what an undeclared rule priority and a token
+    # without terminal contribute above): otherwise every undeclared token shifts the total, and the count of tokens decides
+    gm = repo.module('lark.grammar')
+    dflt = [st_ for st_ in gm.tree.body if isinstance(st_, (ast.Assign, ast.AnnAssign)) and st_.value is not None
+            and any(norm(t_) == 'TOKEN_DEFAULT_PRIORITY' for t_ in (st_.targets if isinstance(st_, ast.Assign) else [st_.target]))]
+    if len(dflt) != 1:
+        raise AnalysisError('R-PRIO-SIBLINGS: lark.grammar defines TOKEN_DEFAULT_PRIORITY %d times' % len(dflt))
+    try:
+        val_ = ast.literal_eval(dflt[0].value)
+    except Exception:
+        raise AnalysisError('R-PRIO-SIBLINGS: TOKEN_DEFAULT_PRIORITY is not a literal (%s)' % norm(dflt[0].value))
+    ok = isinstance(val_, (int, float)) and not isinstance(val_, bool) and val_ == 0
+    res.ob('%s TOKEN_DEFAULT_PRIORITY' % gm.loc(dflt[0]), 'an undeclared terminal priority is 0, the neutral element of the priority sum', ok)
+    if not ok:
+        res.finding('lark.grammar:<module>', dflt[0], 'TOKEN_DEFAULT_PRIORITY is %r: under the dynamic lexers every token of a terminal without a declared priority adds '
+                    'that to the total of its derivation, so the derivation with fewer (or more) tokens wins whatever the declared priorities say'
+                    % (val_,), construct='prio:default-neutral', module=gm)
     sc = repo.func('lark.parsers.earley:Parser._parse.scan')
     from ..exprs import call_args_by_name
     ok = any(isinstance(n, ast.Call) and norm(n.func) == 'TokenNode'
